@@ -455,3 +455,35 @@ Section AfterMd.
       + destruct (new_paths_fresh refs off rgs Hoff Hg _ Hin) as [_ [_ N]]. now apply N.
   Qed.
 End AfterMd.
+
+(* ---------- the model trace is in the relaxed relation, too ---------- *)
+Lemma wf_write_file p cs rest : forall opened, wf_writes opened (write_file p cs ++ rest) = wf_writes (p :: opened) rest.
+Proof.
+  intros opened. unfold write_file. cbn [List.app wf_writes]. rewrite <- app_assoc. cbn [List.app].
+  induction cs as [|c cs IH]; cbn [map List.app wf_writes]; [reflexivity|].
+  cbn [existsb]. rewrite bytes_eqb_refl. cbn [orb andb]. exact IH.
+Qed.
+
+Lemma wf_blocks partitioned bs rest : forall opened, exists opened',
+  wf_writes opened (concat (map (block_calls partitioned) bs) ++ rest) = wf_writes opened' rest.
+Proof.
+  induction bs as [|[[d f] cs] bs IH]; intros opened; [now exists opened|].
+  cbn [map concat]. unfold block_calls at 1. rewrite <- !app_assoc.
+  destruct (IH (f :: opened)) as [o' Ho']. exists o'. rewrite <- Ho'.
+  destruct partitioned; cbn [List.app wf_writes]; apply wf_write_file.
+Qed.
+
+Lemma wf_append_trace refs partitioned rgs md cmd tr : append_trace refs partitioned rgs md cmd = Some tr -> wf_writes [] tr = true.
+Proof.
+  unfold append_trace. destruct (find_max_part refs) as [off|]; [|discriminate]. intros E. inversion E; subst tr.
+  destruct (wf_blocks partitioned (new_files off rgs) (summary_calls md cmd) []) as [o' Ho']. rewrite Ho'.
+  unfold summary_calls. rewrite wf_write_file. rewrite <- (app_nil_r (write_file cmd_name cmd)). rewrite wf_write_file. reflexivity.
+Qed.
+
+Theorem append_is_safe_sym refs partitioned rgs md cmd tr :
+  append_trace refs partitioned rgs md cmd = Some tr -> good_dirs rgs = true -> safe_trace_sym refs tr.
+Proof.
+  intros E Hg. apply strict_is_sym.
+  - apply check_safe_trace_complete. now apply (append_is_safe refs partitioned rgs md cmd tr).
+  - now apply (wf_append_trace refs partitioned rgs md cmd).
+Qed.
